@@ -177,8 +177,8 @@ SPEC = {
                  'compress.canonical-in-sweep-direction', 'compress.bond-dims-do-not-grow', 'compress.first-bond-kept-count', 'compress.tol0-exact',
                  'from_vector.error-bound', 'from_vector.tol0-exact'],
     'workloads': [
-        Workload('compress', compress_case, quick=900, thorough=30000),
-        Workload('from-vector', from_vector_case, quick=400, thorough=12000),
+        Workload('compress', compress_case, quick=1800, thorough=360000),
+        Workload('from-vector', from_vector_case, quick=800, thorough=120000),
     ],
     'shards': {'quick': 1, 'thorough': 16},
     'assumptions': ['dense Schmidt spectrum from numpy.linalg.svd of the unfolded vector; threshold slack 1e-12'],
